@@ -2,7 +2,7 @@
 From Coq Require Import ZArith List Bool.
 From RP Require Import Sched.Model Sched.NodeMap Sched.FindProofs Sched.Inv Sched.SchedProofs Sched.ShapeProofs Sched.ExclProofs Sched.TagMono.
 From Coq Require String.
-From RP Require Sched.Oracle.
+From RP Require Sched.Oracle Sched.ClauseProofs.
 From RP Require AppSlots.Model AppSlots.Oracle AppSlots.NodeProofs AppSlots.InvProofs AppSlots.Proofs.
 Import ListNotations.
 Open Scope Z_scope.
@@ -145,6 +145,14 @@ Theorem C02_colocate_clause_holds_in_model :
     RP.Sched.Oracle.c02_colo_bit (colo s) t sl = true.
 Proof. exact colo_clause_holds_on_model_grant. Qed.
 Print Assumptions C02_colocate_clause_holds_in_model.
+
+Theorem C02_count_clauses_hold_in_model :
+  forall (c : cfg) (s : sstate) (t : req) off co tg (sl : list slot),
+    NoDup (map n_idx (nodes s)) -> wf_req t -> 0 <= r_ranks t -> 0 <= r_rpn t ->
+    schedule_task c s t = inr (off, co, tg, Some sl) ->
+    RP.Sched.Oracle.c02_ranks_bit t sl = true /\ RP.Sched.Oracle.c02_rpn_bit t sl = true.
+Proof. exact RP.Sched.ClauseProofs.count_clauses_hold_on_model_grant. Qed.
+Print Assumptions C02_count_clauses_hold_in_model.
 
 (* PARTIAL: placements supplied by the application are passed through as they
    are (their shape is the application's). *)
